@@ -150,6 +150,8 @@ func runC01(env *Env, tier string) {
 	}
 	hb := []int{30, 5, 10}[ch.Choose("hb", 3)]
 	c.HeartBtInt = hb
+	// every Logon the engine accepts starts a new numbering, also one that arrives inside the session
+	c.ResetOnLogon = ch.Chance("ResetOnLogon", 1, 6)
 	if ch.Chance("inchan", 1, 4) {
 		c.InChanCap = ch.Choose("inchancap", 4)
 	}
